@@ -14,6 +14,8 @@ Everything here works on the parsed program only (ast / CFG); nothing is importe
 * `calls_flow(f, expr, at)`-- like calls_deep but follows only the definitions that reach CFG node `at`
 * `expand_at(f, expr, at)` -- like expand, but flow-sensitive: a local is substituted by the *one* definition that
                               reaches CFG node `at` (survives `tmp = <expr>; return tmp` repeated on several branches)
+* `flow_values(f, e, at)`  -- [(expression, defining CFG node)] a bare local read at `at` may denote (all reaching plain
+                              assignments; `tmp = <e>; return tmp` -> `<e>` evaluated at the assignment)
 * `clone(node)`            -- structural AST copy that does not follow the engine's `_parent` back-pointers
                               (copy.deepcopy on an engine AST copies the whole module through `_parent`)
 """
